@@ -44,10 +44,10 @@ theorem alac_escape_result (cfg : Config) (hd : Depth cfg.bitDepth) (hc1 : 1 ≤
     rw [hup, hbits, List.append_assoc]
   have hsz : (encElemsEsc Rules.current cfg.bitDepth frames (fun _ => ([], [])) (layout cfg.numChannels) 0 0 0).length + 3 ≤ 8 * pk.length := by
     rw [← hlen, hpk]; simp [bitsOf_length]
-  have key := decLoop_esc comp hd pk.length frames hI (by unfold frameLen; exact hn) (fun _ => ([], []))
+  have key := decLoop_esc (comp Rules.current pk.length) hd pk.length frames hI (by unfold frameLen; exact hn) (fun _ => ([], []))
     (bitsOf ID_END 3 ++ List.replicate ((8 - (encodeEscapeBits Rules.current cfg frames (fun _ => ([], []))).length % 8) % 8) false)
     (layout cfg.numChannels) (3 * pk.length + 1) 0 0 0 0 frameLen frameLen [] hl1 hl2 (by omega) rfl (by omega) (fun _ => rfl) (by omega)
-  have hres : res = decLoop comp Rules.current cfg pk.length (3 * pk.length + 1) ⟨Rd.ofBytes pk, frameLen, frameLen, []⟩ := by
+  have hres : res = decLoop (comp Rules.current pk.length) Rules.current cfg pk.length (3 * pk.length + 1) ⟨Rd.ofBytes pk, frameLen, frameLen, []⟩ := by
     show decode cfg pk pk.length frameLen = _
     unfold decode decodeR decodeWith
     rw [if_neg (by omega)]
